@@ -433,6 +433,39 @@ def r4(ck, F):
             ck.bad("C07.R4", "Filtered.id assigned only in on_subscribe from register_filter", where(osb.raw["sp"]), "register_filter sites %d, forwarded on_subscribe %d" % (len(reg), len(fwd)))
     else:
         ck.bad("C07.R4", "Filtered.id assigned only in on_subscribe from register_filter", str(sorted(writers)), "writers of Filtered.id: %s" % sorted(writers))
+    # the small algebra around filter ids: none() is the empty set, disabled() the "not yet registered" marker (all ones),
+    # and() is union unless self is still the marker; any_enabled means "not every bit is set"
+    want = {
+        "FilterId::none": [([], "FilterId{0}")],
+        "FilterId::disabled": [([], "FilterId{<impl u64>::MAX}")],
+        "FilterId::and": [([("(arg1.0 Eq disabled().0)", 0)], "FilterId{(arg1.0 BitOr arg2.0)}"), ([("(arg1.0 Eq disabled().0)", None)], "FilterId{arg2.0}")],
+        "FilterMap::any_enabled": [([], "(arg1.bits Ne <impl u64>::MAX)")],
+    }
+    for nm, rows_want in want.items():
+        b = F.body(SF + nm)
+        if not ck.anchor("C07.R4", nm, b):
+            continue
+        got = [([(show(c[0]), c[1]) for c in p.conds if c[0][0] != "const"], show(p.ret)) for p in PathEval(b).run() if p.end == "return"]
+        norm = lambda rows: sorted(((tuple((t, "0" if v == 0 else "else") for t, v in c), r) for c, r in rows), key=repr)
+        alt = {"(arg1.bits Ne <impl u64>::MAX)": {"(arg1.bits Ne <impl u64>::MAX)", "(<impl u64>::MAX Ne arg1.bits)"},
+               "FilterId{(arg1.0 BitOr arg2.0)}": {"FilterId{(arg1.0 BitOr arg2.0)}", "FilterId{(arg2.0 BitOr arg1.0)}"}}
+        ok = len(got) == len(rows_want) and all(any(gc == wc and (gr == wr or gr in alt.get(wr, ())) for gc, gr in norm(got)) for wc, wr in norm(rows_want))
+        if ok:
+            ck.ok("C07.R4", "%s table" % nm, fn=b.path)
+        else:
+            ck.bad("C07.R4", "%s table" % nm, where(b.raw["sp"]), "rows %s, expected %s" % (got, rows_want), fn=b.path)
+    for m, ty, n in (("and", "And", 2), ("or", "Or", 2), ("not", "Not", 1)):
+        b = F.body(SF + "FilterExt::" + m)
+        if not ck.anchor("C07.R4", "FilterExt::" + m, b):
+            continue
+        rets = [p.ret for p in PathEval(b).run() if p.end == "return"]
+        ok = len(rets) == 1 and rets[0][0] == "call" and ("combinator::%s::" % ty) in rets[0][1] and rets[0][1].endswith("::new") and \
+            [show(a) for a in rets[0][2]] == ["arg%d" % k for k in range(1, n + 1)]
+        key = "FilterExt::%s builds combinator::%s from its operands in order" % (m, ty)
+        if ok:
+            ck.ok("C07.R4", key, fn=b.path)
+        else:
+            ck.bad("C07.R4", key, where(b.raw["sp"]), "returns %s" % [show(r)[:80] for r in rets], fn=b.path)
     # FilterMap::set / is_enabled tables
     st = F.body(SF + "FilterMap::set")
     ie = F.body(SF + "FilterMap::is_enabled")
